@@ -6,6 +6,7 @@ import contextlib
 import functools
 import json
 import os
+import sys
 import time
 
 import numpy as np
@@ -332,3 +333,134 @@ class PadStepMonitor:
     def disarm(self):
         self.max_calls = max(self.max_calls, self.calls)
         self.bound = None
+
+
+# ---------------------------------------------------------------------------------
+# fault injection: abort a call at an arbitrary statement (source-free failpoints, sys.monitoring, python >= 3.12)
+
+class InjectedAbort(BaseException):
+    """What a user's Ctrl-C, a MemoryError or a raising callback looks like to the code under test: the call is abandoned
+    at some statement. BaseException so that `except Exception` inside the library cannot absorb it."""
+
+
+class LineFailpoint:
+    """Counts the statement-start events executed in code objects whose file name ends with one of `suffixes` while active;
+    if `abort_at` is given, raises InjectedAbort when the abort_at-th such statement is about to run. Used as
+        with LineFailpoint(('emd/spectra.py',)) as probe: f(...)          -> probe.lines = number of statements executed
+        with LineFailpoint(('emd/spectra.py',), abort_at=k): f(...)       -> the call is abandoned at statement k
+    Afterwards the next valid call must behave as if the abandoned one had never been made."""
+    TOOL = 4
+
+    def __init__(self, suffixes, abort_at=None):
+        self.suffixes = tuple(suffixes)
+        self.abort_at = abort_at
+        self.lines = 0
+        self.fired = None
+
+    def _line(self, code, lineno):
+        mon = sys.monitoring
+        if not code.co_filename.endswith(self.suffixes):
+            return mon.DISABLE
+        self.lines += 1
+        if self.abort_at is not None and self.lines == self.abort_at and self.fired is None:
+            self.fired = (code.co_filename, code.co_name, lineno)
+            raise InjectedAbort('%s:%s line %d' % (code.co_filename.rsplit('/', 2)[-1], code.co_name, lineno))
+        return None
+
+    def __enter__(self):
+        mon = sys.monitoring
+        mon.use_tool_id(self.TOOL, 'emdverif-failpoint')
+        mon.register_callback(self.TOOL, mon.events.LINE, self._line)
+        mon.set_events(self.TOOL, mon.events.LINE)
+        mon.restart_events()
+        return self
+
+    def __exit__(self, *exc):
+        mon = sys.monitoring
+        mon.set_events(self.TOOL, 0)
+        mon.register_callback(self.TOOL, mon.events.LINE, None)
+        mon.free_tool_id(self.TOOL)
+        return False
+
+
+def abort_then_call(suffixes, aborted_call, next_call, points, rng):
+    """Abandons `aborted_call()` at up to `points` different statements (chosen over its whole run) and, after each, runs
+    `next_call()`. Returns (number of statements in one run, list of (where, result_of_next_call or exception))."""
+    with LineFailpoint(suffixes) as probe:
+        try:
+            aborted_call()
+        except Exception:
+            pass
+    n = probe.lines
+    out = []
+    if n == 0:
+        return 0, out
+    ks = sorted(set(int(k) for k in rng.integers(1, n + 1, points))) if n > points else list(range(1, n + 1))
+    for k in ks:
+        fp = LineFailpoint(suffixes, abort_at=k)
+        try:
+            with fp:
+                aborted_call()
+        except InjectedAbort:
+            pass
+        except Exception:
+            pass
+        if fp.fired is None:
+            continue
+        try:
+            out.append((fp.fired, next_call()))
+        except Exception as e:        # noqa
+            out.append((fp.fired, e))
+    return n, out
+
+
+# ---------------------------------------------------------------------------------
+# schedule exploration: the same calls from several threads of one interpreter
+
+def result_digest(res):
+    from .harness import digest
+    if hasattr(res, 'toarray'):
+        res = res.toarray()
+    if isinstance(res, (tuple, list)):
+        return [result_digest(v) for v in res]
+    if isinstance(res, dict):
+        return {str(k): result_digest(res[k]) for k in sorted(res, key=str)}
+    if res is None:
+        return None
+    a = np.asarray(res)
+    if a.dtype == object:
+        return [result_digest(v) for v in a.reshape(-1)]
+    return [digest(np.ascontiguousarray(a)), list(a.shape)]
+
+
+def run_in_threads(calls, reps, interval=1e-5):
+    """`calls`: zero-argument deterministic callables. Each is first run alone, then all run concurrently (one thread per call,
+    `reps` repetitions each) while the interpreter is made to switch threads every `interval` seconds. Returns
+    (number of concurrent calls made, list of descriptions of calls whose result differed from the one obtained alone)."""
+    import threading
+    alone = [result_digest(c()) for c in calls]
+    bad = []
+    made = [0]
+
+    def worker(k):
+        for _ in range(reps):
+            try:
+                got = result_digest(calls[k]())
+                made[0] += 1
+                if got != alone[k]:
+                    bad.append('thread %d got a different result than when running alone' % k)
+                    return
+            except Exception as e:
+                bad.append('thread %d: %s: %s' % (k, type(e).__name__, str(e)[:100]))
+                return
+    old = sys.getswitchinterval()
+    sys.setswitchinterval(interval)
+    try:
+        th = [threading.Thread(target=worker, args=(k,)) for k in range(len(calls))]
+        for t in th:
+            t.start()
+        for t in th:
+            t.join()
+    finally:
+        sys.setswitchinterval(old)
+    return made[0], bad
